@@ -238,31 +238,49 @@ def coq_make(targets=()):
     return rc == 0, out
 
 
-def scan_forbidden():
-    """Admitted/Axiom/... anywhere in the development.  `Variable`/`Hypothesis` are allowed
-    inside a Section only (checked by a simple section-depth scan)."""
-    bad = []
-    for root, _, files in os.walk(COQ):
-        if "/build" in root:
+def coq_closure(files):
+    """Transitive closure of `From DV Require ... X.Y` dependencies of the given coq/-relative files."""
+    todo = list(files)
+    seen = []
+    while todo:
+        f = todo.pop()
+        if f in seen or not os.path.exists(os.path.join(COQ, f)):
             continue
-        for f in files:
-            if not f.endswith(".v"):
-                continue
-            path = os.path.join(root, f)
-            depth = 0
-            text = open(path, encoding="utf-8").read()
-            text = strip_comments(text)
-            for ln, line in enumerate(text.split("\n"), 1):
-                s = line.strip()
-                if re.match(r"Section\s+\w+", s):
-                    depth += 1
-                elif re.match(r"End\s+\w+", s) and depth > 0:
-                    depth -= 1
-                for m in FORBIDDEN.finditer(line):
-                    w = m.group(0)
-                    if re.match(r"Variables?|Hypothes[ie]s", w) and depth > 0:
-                        continue
-                    bad.append(f"{os.path.relpath(path, VERIF)}:{ln}: {w}")
+        seen.append(f)
+        src = strip_comments(open(os.path.join(COQ, f), encoding="utf-8").read())
+        for m in re.finditer(r"From\s+DV\s+Require\s+(?:Import\s+|Export\s+)?(.*?)\.(?=\s|$)", src, re.S):
+            for mod in m.group(1).split():
+                todo.append(mod.replace(".", "/") + ".v")
+        for m in re.finditer(r"(?<!DV )Require\s+(?:Import\s+|Export\s+)?(DV\..*?)\.(?=\s|$)", src, re.S):
+            for mod in m.group(1).split():
+                if mod.startswith("DV."):
+                    todo.append(mod[3:].replace(".", "/") + ".v")
+    return seen
+
+
+def scan_forbidden(files=None):
+    """Admitted/Axiom/... in the given files (default: the whole development).
+    `Variable`/`Hypothesis` are allowed inside a Section only (section-depth scan)."""
+    bad = []
+    if files is None:
+        files = []
+        for root, _, fs in os.walk(COQ):
+            files += [os.path.relpath(os.path.join(root, f), COQ) for f in fs if f.endswith(".v")]
+    for rel in sorted(files):
+        path = os.path.join(COQ, rel)
+        depth = 0
+        text = strip_comments(open(path, encoding="utf-8").read())
+        for ln, line in enumerate(text.split("\n"), 1):
+            s = line.strip()
+            if re.match(r"Section\s+\w+", s):
+                depth += 1
+            elif re.match(r"End\s+\w+", s) and depth > 0:
+                depth -= 1
+            for m in FORBIDDEN.finditer(line):
+                w = m.group(0)
+                if re.match(r"Variables?|Hypothes[ie]s", w) and depth > 0:
+                    continue
+                bad.append(f"coq/{rel}:{ln}: {w}")
     return bad
 
 
@@ -290,9 +308,9 @@ def strip_comments(text):
 def coq_props(prop_id, extra_files=()):
     """Re-check coq/Props/<id>.v (always recompiled so that Print Assumptions is captured).
     Returns dict(ok, obligations, discharged, theorems, assumptions, log)."""
-    ok, log = coq_make()
-    res = {"ok": False, "obligations": 0, "discharged": 0, "theorems": [], "assumptions": {}, "log": ""}
     files = [f"Props/{prop_id}.v", *extra_files]
+    ok, log = coq_make([f[:-2] + ".vo" for f in files])
+    res = {"ok": False, "obligations": 0, "discharged": 0, "theorems": [], "assumptions": {}, "log": ""}
     theorems = []
     for f in files:
         src = strip_comments(open(os.path.join(COQ, f), encoding="utf-8").read())
@@ -322,7 +340,8 @@ def coq_props(prop_id, extra_files=()):
     res["assumptions"] = {"closed_under_global_context": closed, "axioms": sorted(set(a.strip() for a in axioms))}
     res["discharged"] = len(theorems) if all_ok else 0
     res["ok"] = all_ok
-    res["forbidden"] = scan_forbidden()
+    res["closure"] = sorted(coq_closure(files))
+    res["forbidden"] = scan_forbidden(res["closure"])
     if res["forbidden"]:
         res["ok"] = False
     return res
@@ -436,11 +455,13 @@ class Ctx:
 
 
 def load_known(prop):
-    path = os.path.join(VERIF, "known_findings.json")
+    """known_findings/<id>.json: {"findings": [{"id","what","match":{...}}], "fixed": [...]}.
+    Only "findings" suppress anything; "fixed" entries are documentation."""
+    path = os.path.join(VERIF, "known_findings", prop + ".json")
     if not os.path.exists(path):
         return []
     data = json.load(open(path))
-    return [f for f in data.get("findings", []) if f.get("property") == prop]
+    return list(data.get("findings", []))
 
 
 def finding_matches(f, failure):
@@ -520,7 +541,7 @@ def replay(mod, ctx, path):
     fails = mod.oracle(ctx, kind, case, out) if hasattr(mod, "oracle") else []
     print("oracle failures:", jsonable(fails))
     if getattr(mod, "COQ_RUN", None):
-        coq_make()
+        coq_make([f"Props/{mod.ID}.vo"])
         bad, errs = coq_compare(ctx, mod.COQ_IMPORTS, mod.COQ_RUN, [(case, out)])
         print("model agrees" if not bad and not errs else f"model differs: {jsonable(bad)} {errs}")
     return 1 if fails else 0
@@ -660,6 +681,7 @@ def _run(mod, ctx):
         "checker_cmd": f"tools/coqbuild.sh && coqc -Q coq DV coq/Props/{prop}.v  (via ./check {prop} --tier {ctx.tier})",
         "trusted_base": BASE_TRUSTED + list(getattr(mod, "TRUSTED", [])),
         "theorems": proofs["theorems"],
+        "coq_files": proofs.get("closure", []),
         "assumptions_reported": proofs["assumptions"],
         "evaluations": len(seen) + ctx.notes.get("extra_evaluations", 0),
         "distinct_nontrivial": len(nontrivial) + ctx.notes.get("extra_nontrivial", 0),
